@@ -20,7 +20,9 @@ def _kill(p):
 
 
 def run_harness(d, target, name, wall, extra=()):
-    env = dict(os.environ, CARGO_NET_OFFLINE="true", CARGO_TARGET_DIR=target, RUSTFLAGS="--cfg ndarray_interp_verif")
+    # the hook is left OFF here: its type_name string comparison needs a memcmp unwinding bound of ~150
+    env = dict(os.environ, CARGO_NET_OFFLINE="true", CARGO_TARGET_DIR=target)
+    env.pop("RUSTFLAGS", None)
     cmd = ["cargo", "kani", "--harness", name] + list(extra)
     t0 = time.time()
     p = subprocess.Popen(cmd, cwd=d, env=env, stdout=subprocess.PIPE, stderr=subprocess.STDOUT, text=True, start_new_session=True)
